@@ -287,9 +287,9 @@ func ruleCacheKey(c *eng.Ctx) {
 	c.Check(okStore && okCompute, R, "htmldoc.(*Reader).getElements#fill", fn.Pos(), "cache filled under the requested mode with elements computed for it", "the element cache is filled under another key, or with elements computed for another mode")
 	// None -> r.elements
 	okNone := false
-	for _, r := range eng.Returns(fn) {
+	for _, r := range eng.Exits(fn) {
 		if fr, ok := eng.LoadOfField(r.Results[0]); ok && fr.Field == "elements" {
-			if eng.GuardedBy(fn, r.Block(), func(f eng.Fact) bool {
+			if eng.ExitGuarded(fn, r, func(f eng.Fact) bool {
 				op, x, y, ok := f.Cmp()
 				k, isC := eng.ConstInt(y)
 				return ok && op == token.EQL && x == mode && isC && k == 0
